@@ -31,9 +31,20 @@ def run(ctx):
     # (a) a corrupted history (a NotFound turned into success after the removal returned) must be rejected
     lines = open(trace).read().splitlines()
     evs = [json.loads(l) for l in lines]
-    k = next((i for i, e in enumerate(evs) if e["ev"] == "ret" and e["th"] != 0 and e["res"] == "notfound"), None)
+    # a NotFound whose call was invoked after the removal of its channel had returned
+    k, done, after = None, set(), {}
+    for i, e in enumerate(evs):
+        if e["ev"] == "reset":
+            done, after = set(), {}
+        elif e["ev"] == "ret" and e["th"] == 0 and e["what"] != "add":
+            done |= set(e["targets"])
+        elif e["ev"] == "inv" and e["th"] != 0:
+            after[e["th"]] = e["id"] in done
+        elif e["ev"] == "ret" and e["th"] != 0 and e["res"] == "notfound" and after.get(e["th"]):
+            k = i
+            break
     if k is None:
-        raise verif.ToolError("binding self-test impossible: no NotFound return in the recorded history")
+        raise verif.ToolError("binding self-test impossible: no NotFound after a returned removal in the recorded history")
     evs[k]["res"] = "ok"
     bad = ctx.write_ndjson("selftest.trace.ndjson", evs[:k + 1])
     ok, n, _ = ctx.validate_trace("Trace_AfcAbs", "Trace_AfcAbs.cfg", bad, env={"PROP": "C41"}, tag="trace-selftest")
